@@ -269,3 +269,36 @@ Corollary print_scan_print f s w rest : forallb scalar s = true ->
 Proof.
   intros Hs H. destruct (scan_print_scan f s w rest Hs H) as [F HF]. exists F, w. split; [exact HF|reflexivity].
 Qed.
+
+(** * The printer's notation for parameter expansions is not injective (open finding F64)
+    printer.paramExp, transcribed: with braces, "${name}" when there is no operator, "${#name}"
+    for the length form (operator # and no word), otherwise "${" name op word "}"; without braces
+    "$name".  The parameter # with the operator ? and an empty word -- which the parser builds for
+    "${#?" followed by a line continuation and "}" -- and the length of $? are written alike. *)
+Record pexp := mkPexp { pbraces : bool; pname : list rune; pop : list rune; pword : option (list rune) }.
+
+Definition print_pexp (e : pexp) : list rune :=
+  if pbraces e then
+    match pop e, pword e with
+    | [], _ => [36; 123] ++ pname e ++ [125]
+    | [35], None => [36; 123; 35] ++ pname e ++ [125]
+    | op, w => [36; 123] ++ pname e ++ op ++ match w with Some t => t | None => [] end ++ [125]
+    end
+  else 36 :: pname e.
+
+Theorem print_pexp_refuted : exists a b, a <> b /\ print_pexp a = print_pexp b.
+Proof.
+  exists (mkPexp true [35] [63] (Some [])), (mkPexp true [63] [35] None).
+  split; [discriminate|reflexivity].
+Qed.
+
+(** * A backslash at the very end of the input (open finding F65): the theorem above needs the same
+    rest after the printed word; the word a\ at the end of the input, printed and followed by
+    anything else (a redirection the printer moves behind it), is another word. *)
+Theorem trailing_backslash_refuted :
+  exists f s w, scan_word f s [] = Some (w, []) /\
+    forall F, scan_word F (print_parts w ++ [32; 62; 102]) [] <> Some (w, [32; 62; 102]).
+Proof.
+  exists 3%nat, [97; 92], [WLit [97]; WQuote 92 []]. split; [reflexivity|].
+  intros F. destruct F as [|[|[|F]]]; cbn; discriminate.
+Qed.
